@@ -23,6 +23,8 @@ for d in sorted(os.listdir(os.path.join(ROOT, "seeded"))):
             checks.append("%s: caught%s" % (c, " (concrete input)" if r.get("with_failing_input") else " (no-failing-input-found)"))
         else:
             checks.append("%s: MISSED" % c)
+    if m.get("lead_note"):
+        checks.append("NOTE: " + m["lead_note"])
     rows.append("| %s | %s | %s | %s | %s |" % (d, m.get("breaks_property"), what[:150].replace("|", "/"), "yes" if m.get("confirmed") else "NO (%s)" % str(m.get("baseline_tests_with_patch"))[:30], "; ".join(checks)))
 print("| seeded change | property | what (first line of the author's notes) | confirmed (tests pass, demo fails with / passes without) | checks run against it |")
 print("|---|---|---|---|---|")
